@@ -1278,6 +1278,20 @@ func onCloseParagraph(source []byte, originalBlock *Block) []*Block {
 	r := newInlineByteReader(source, originalBlock.inlineChildren, contentStart)
 	var result []*Block
 	for {
+		if len(result) > 0 {
+			// What is left of the paragraph starts on a new line.
+			// As on any paragraph continuation line, its indentation is not part of the text
+			// (and does not keep the line from being another definition).
+			skipSpacesAndTabs(r)
+			if first := nodeIndexForPosition(originalBlock.inlineChildren, r.pos); first >= 0 {
+				originalBlock.inlineChildren = originalBlock.inlineChildren[first:]
+				if child := originalBlock.inlineChildren[0]; child.Kind() == UnparsedKind && child.span.Start < r.pos {
+					child.span.Start = r.pos
+				}
+				originalBlock.span.Start = r.pos
+			}
+		}
+
 		// At a minimum, a link reference definition must have a label and a destination.
 		label := parseLinkLabel(r)
 		if !label.span.IsValid() {
